@@ -61,6 +61,9 @@ def _cost_components(cost):
     return out
 
 
+TIGHT = ['2000-01-01 * "p" "n"#t\n    Assets:Foo  1 USD\n', '2000-01-01 custom "x"TRUE\n', '2000-01-01 * "n"#t ^l\n',
+         '2000-01-01 custom "x"TRUE "y"\n', '2000-01-01 *"n"#t #u\n', '2000-01-01 note Assets:Foo "n"#t\n',
+         '2000-01-01 document Assets:Foo "/p"^l #t\n', '2000-01-01 custom "x"1.5 USD\n', '2000-01-01 * "n"^l\n  k: 1\n']
 COST_KINDS = ('py_property', 'optional_value', 'required_value', 'optional_node', 'unordered_node', 'custom_node')
 
 
@@ -82,10 +85,21 @@ def run_case(col, r, idx):
             except Exception:
                 f = None
             col.count('cost_documents')
+        tight_doc = idx % 9 == 7
+        if tight_doc:
+            # the first element of a list written right against the token before it (round 13): the list's zero-width placeholder sits
+            # in a gap without blanks, so a removal that reaches back over "the separator" takes a token that is not the list's
+            text = r.choice(TIGHT)
+            try:
+                f = common.parser().parse(text, models.File)
+            except Exception:
+                f = None
+            col.count('tight_list_documents')
         if f is None:
             col.skip('document rejected by parse')
             return
-        g = ops.Generator(_corpus, r, index_mode='grid', kinds=COST_KINDS if cost_doc and r.random() < 0.7 else None)
+        g = ops.Generator(_corpus, r, index_mode='grid', kinds=COST_KINDS if cost_doc and r.random() < 0.7 else
+                          ops.LIST_KINDS if tight_doc and r.random() < 0.8 else None)
         # read every list view once, as a user inspecting the document would: this creates the cached views whose index tables
         # must follow later edits made through other views of the same list
         for _p, _m in walker.tree_models(f):
